@@ -19,7 +19,7 @@ FUNCTIONS = [
     "jsonargparse._util.Path(mode='fc'), change_to_path_dir",
 ]
 
-FAULTS = ["none", "invalid", "unserialisable", "invalid-in-subfile-section"]
+FAULTS = ["none", "invalid", "unserialisable", "invalid-in-subfile-section", "json-unserialisable"]
 
 
 def a_function(x: int = 0) -> int:
@@ -27,7 +27,7 @@ def a_function(x: int = 0) -> int:
 
 
 def _parser():
-    from typing import Callable
+    from typing import Any, Callable
 
     from jsonargparse import ActionConfigFile, ArgumentParser
     from jsonargparse.typing import PositiveInt
@@ -40,6 +40,7 @@ def _parser():
     p.add_argument("--f", type=Callable, default=a_function)
     p.add_argument("--g", type=Inner, default=Inner())
     p.add_argument("--x", type=Base, default=None, enable_path=True)
+    p.add_argument("--any", type=Any, default=None)
     return p
 
 
@@ -83,6 +84,8 @@ def _once(overwrite, multifile, target_exists, sub_exists, from_subfiles, fault,
             cfg["f"] = lambda z: z
         elif fault == "invalid-in-subfile-section":
             cfg["g.k"] = "not-an-int"
+        elif fault == "json-unserialisable":
+            cfg["any"] = {1, 2}  # a set is written by the yaml dumper but not by json
         target = os.path.join(out, "main." + ("json" if fmt == "json" else "yaml"))
         if target_exists:
             with open(target, "w") as f:
@@ -99,7 +102,9 @@ def _once(overwrite, multifile, target_exists, sub_exists, from_subfiles, fault,
         after = _snapshot(out)
         has_metas = from_subfiles and multifile
         must_refuse = (not overwrite) and (target_exists or (has_metas and sub_exists))
-        must_fail = fault != "none"
+        must_fail = fault != "none" and not (fault == "json-unserialisable" and fmt == "yaml")
+        if fault == "json-unserialisable" and fmt == "yaml":
+            expected = None  # a yaml !!set tag is not read back by the safe loader: only 'no failure, nothing destroyed' is demanded
         if (must_refuse or must_fail) and raised is None:
             return Fail("save:succeeded-although-it-must-fail", refuse=must_refuse, fault=fault)
         if raised is not None and not (must_refuse or must_fail):
@@ -115,6 +120,8 @@ def _once(overwrite, multifile, target_exists, sub_exists, from_subfiles, fault,
                     return Fail("save:refused-overwrite-but-existing-file-changed", file=k)
             return True
         # success: parsing the saved path reproduces the configuration
+        if expected is None:
+            return True
         try:
             back = strip_meta(_parser().parse_path(target))
         except ArgumentError as ex:
@@ -165,14 +172,14 @@ def main(rep, tier):
     rep.functions = FUNCTIONS
     rep.rule = ("one path per fault schedule (overwrite, multifile, target exists, sub-file exists, loaded from sub-files, fault kind, invalid value); "
                 "non-trivial = save ran and the directory snapshots were compared")
-    rep.bounds = dict(schedule_bits=5, faults=FAULTS, invalid_window=[-2, 0], formats=["yaml"] if tier == "quick" else ["yaml", "json", "json_indented"])
+    rep.bounds = dict(schedule_bits=5, faults=FAULTS, invalid_window=[-2, 0], formats=["yaml", "json"] if tier == "quick" else ["yaml", "json", "json_indented"])
     rep.assumptions = [
         "faults: a value that fails validation (PositiveInt <= 0), a value that validates but cannot be serialised (a lambda for a Callable argument), "
         "an invalid value inside a section that is written to a sub-file; I/O errors in the middle of a write are outside the statement",
         "a refusal to overwrite must leave every pre-existing file byte-identical (a sub-file refusal may leave an earlier, newly created sub-file behind)",
         "real files in a per-path temp directory; the schedule is solver-chosen, the body runs outside the tracer",
     ]
-    fmts = ["yaml"] if tier == "quick" else ["yaml", "json", "json_indented"]
+    fmts = ["yaml", "json"] if tier == "quick" else ["yaml", "json", "json_indented"]
     results = run_jobs([dict(module="c18", func="schedule", kwargs=dict(fmt=f), timeout=600) for f in fmts])
     fails = absorb(rep, results, require_tags=tuple("fault:" + f for f in FAULTS))
     groups = {}
